@@ -393,7 +393,7 @@ func enumerate(alphabet, length int, f func([]int)) {
 func partA(c *kit.Ctx) (depth, nRand int) {
 	depth, nRand = 3, 500
 	if c.Thorough() {
-		depth, nRand = 4, 12000
+		depth, nRand = 4, 6000
 	}
 	// corpus first: the histories of F4 and F5 (fixed by 644f10eaa)
 	runA(c, []aop{{Kind: kReserve, NP: 1, Limit: 5, W: 2}, {Kind: kUpdate, NP: 1, NC: 1}, {Kind: kCleanup, NC: 1}, {Kind: kRelease, NP: 1, W: 1}})
